@@ -288,6 +288,47 @@ def forwarders():
     return out
 
 
+_ATTR = None
+_USE = re.compile(r"Use\s+(?P<new>\w+)\s+instead\s+of\s+(?P<old>\w+)")
+
+
+def old_attributes():
+    """Hand-written old ATTRIBUTES: properties of the package's classes that announce themselves as obsolete (their getter /
+    setter source logs or warns 'Obsolete ...' / mentions deprecation / backward compatibility) or whose name is the
+    differently spelled twin (same letters once '_' and case are dropped) of another attribute of the class while carrying
+    upper-case letters itself. -> [dict(owner, module, name, declared (replacement named in the message, or None), setter)]"""
+    global _ATTR
+    if _ATTR is not None:
+        return _ATTR
+    mods, _ = all_modules()
+    out, seen = [], set()
+    for mod in mods:
+        for _, o in list(vars(mod).items()):
+            if not (inspect.isclass(o) and o.__module__ == mod.__name__) or id(o) in seen:
+                continue
+            seen.add(id(o))
+            for k, v in list(vars(o).items()):
+                if not isinstance(v, property) or k.startswith('_'):
+                    continue
+                src = ''
+                for f in (v.fget, v.fset):
+                    if f is not None:
+                        try:
+                            src += inspect.getsource(f)
+                        except (OSError, TypeError):
+                            pass
+                announced = bool(re.search(r'obsolete|deprecat|backward compatib', src, re.I))
+                twins = [a for a in dir(o) if a != k and cmp.norm_name(a) == cmp.norm_name(k)]
+                if not announced and not (twins and k != k.lower()):
+                    continue
+                m = [x for x in _USE.finditer(src) if x.group('old') == k]
+                declared = m[0].group('new') if m else (twins[0] if len(twins) == 1 else None)
+                out.append({'owner': qual(o), 'module': mod.__name__, 'name': k, 'declared': declared, 'setter': v.fset is not None})
+    out.sort(key=lambda r: (r['owner'], r['name']))
+    _ATTR = out
+    return out
+
+
 def resolve_class(q: str):
     mod, _, name = q.rpartition('.')
     m = importlib.import_module(mod)
